@@ -62,6 +62,14 @@ CHECKS = {
         "Bound: paths <=4 chars, encodings <=6 chars, four contents. open/stdin/os.fsdecode are stubs (codecs and OS trusted). Tool comparisons are concrete (translation-validation style) over the test-suite corpus.",
         "DESIGN.md 3/C20",
     ),
+    "C18": (
+        "model_checking",
+        "CrossHair (z3): the preprocessor-hook contract on the real CxxParser.__init__ / parse_string / parse_file with symbolic filename and content strings and stubbed open(); exhaustive CrossHair exploration of a declaration grammar for the convert_void_to_zero_params and verbose differentials",
+        "Hook: confirmed over all paths for all filename and content strings inside the bound and three entry points (called exactly once with exactly those values, nothing opened, result == parse_string(returned)). "
+        "Options: every declaration of the grammar (11 forms x parameter-list shapes at every nesting level) is parsed under all option values; result(False) with lone unnamed void lists emptied == result(True), the number of kept lists equals the number written, verbose == default.",
+        "Bound: strings <=4 chars; 11 declaration forms, 10 parameter-list shapes, up to two independent lists per declaration. The parser runs concretely per path in the differential harness. `(void x)` / `(const void)` are not generated (unspecified).",
+        "DESIGN.md 3/C18",
+    ),
 }
 
 NOT_YET = "no check landed yet in this build (planned engine and bounds: DESIGN.md section 3); not claimed until the check runs green"
